@@ -23,6 +23,7 @@ PROP_MODULES = {
     "C11": ["c11"],
     "C15": ["c15"],
     "C08": ["c08"],
+    "C07": ["c07"],
 }
 
 
